@@ -40,6 +40,7 @@ def draw_cfg(st):
     world = ["seq", "threads", "async"][w]
     cfg = {
         "world": world,
+        "wide": st.choose(4, "wide") == 3,
         "late_remote": True,
         "max_ops": [12, 30, 60][st.choose(3, "size")],
         "max_depth": 2 + st.choose(5, "depth"),
